@@ -39,6 +39,7 @@ func runC01(c *Ctx) {
 	payloadUnderTag(c, "R7")
 	lexerByteIndex(c, "R6")
 	cliExitDiscipline(c, "R8")
+	noNilCellStored(c, "R17")
 	if es := c.P.LangFunc("(*Evaluator).evalStatement"); es != nil {
 		c.shared("R10", "C07/R7", "for-in over an array iterates with Go's range over the array value taken at loop entry (bounds-safe by construction): an index loop with a hoisted length panics when the body shrinks the array", keyHas("for-in ValueArray"), func(s *Ctx) { c07ForIn(s, es) })
 	}
@@ -209,4 +210,63 @@ func (e *EK) origin(v ssa.Value, b Kinds, facts factSet, seen map[ssa.Value]bool
 		}
 	}
 	return "(" + e.describe(v) + ")", nil
+}
+
+// noNilCellStored (R17): variable tables, object members and array elements hold cells that are
+// dereferenced without a nil test wherever they are read (getVariable hands the entry out as the
+// variable). No store puts the nil constant (directly or as one input of a merge) into a map or
+// slice of *Cell or into a *Cell field of a value.
+func noNilCellStored(c *Ctx, rule string) {
+	p := c.P
+	c.note("%s no-nil-cell-stored: every map update, slice element store and append whose element type is *Cell stores a value that is not the nil constant (nor a merge with a nil input): the readers of variable tables, objects and arrays dereference what they find.", rule)
+	isCellPtr := func(T types.Type) bool {
+		pt, ok := T.Underlying().(*types.Pointer)
+		return ok && isLangNamed(pt.Elem(), "Cell")
+	}
+	var mayBeNil func(v ssa.Value, seen map[ssa.Value]bool) bool
+	mayBeNil = func(v ssa.Value, seen map[ssa.Value]bool) bool {
+		if seen[v] {
+			return false
+		}
+		seen[v] = true
+		if isNilConst(v) {
+			return true
+		}
+		if phi, ok := v.(*ssa.Phi); ok {
+			for _, e := range phi.Edges {
+				if mayBeNil(e, seen) {
+					return true
+				}
+			}
+		}
+		return false
+	}
+	for _, fn := range p.Funcs {
+		if !p.InLang(fn) {
+			continue
+		}
+		n := 0
+		allInstrs(fn, func(in ssa.Instruction) {
+			var val ssa.Value
+			what := ""
+			switch x := in.(type) {
+			case *ssa.MapUpdate:
+				if isCellPtr(x.Value.Type()) {
+					val, what = x.Value, "entry "+p.RenderShort(x.Map)+"["+p.RenderShort(x.Key)+"]"
+				}
+			case *ssa.Store:
+				if _, isIdx := x.Addr.(*ssa.IndexAddr); isIdx && isCellPtr(x.Val.Type()) {
+					val, what = x.Val, "element "+p.RenderShort(x.Addr)
+				}
+			}
+			if val == nil {
+				return
+			}
+			n++
+			// a nil known to be replaced: the store happens where the value is known non-nil
+			bad := mayBeNil(val, map[ssa.Value]bool{}) && !FactsOf(fn).At(in.Block()).KnownNonNil(val)
+			c.check(!bad, rule, fmt.Sprintf("no-nil-cell-stored %s #%d", shortName(fn), n), p.InstrPos(in), what+" := "+p.RenderShort(val), what+" is set to a nil cell: the name stays present, and the next read hands out a nil *Cell that the evaluator dereferences (a Go nil-pointer panic instead of an error)")
+		})
+	}
+	c.floor(rule, 15)
 }
